@@ -174,7 +174,6 @@ def _iterator_source(p) -> bool:
 
 
 SIGS = {
-    "inlined_value_evaluated_twice": lambda p: any(e[0] == "gen" for e in _walk(_value_of(p))),
     "inlined_value_consumes_iterator": _iterator_source,
 }
 
